@@ -12,7 +12,7 @@ from checks import common
 
 ID = 'C06'
 LEVEL = 'fault_enumeration'
-TIERS = {"quick": 12000, "thorough": 1000000}
+TIERS = {"quick": 12000, "thorough": 800000}
 BUDGET = {"quick": 120, "thorough": 1500}
 RULE = ('per sampled valid encoding e (seeded: descriptor, value, codec, with/without guiding type): every cut '
         'point k in [0,|e|) x presentations {one-shot on bytes, one-shot on a closed seekable stream, one-shot on a '
